@@ -5,6 +5,7 @@
 -/
 import IcingaProofs.C12.Lemmas
 import IcingaProofs.C12.TraceLemmas
+import IcingaProofs.C12.Sync
 import IcingaModel.C12.Spec
 import IcingaModel.C12.Trace
 
@@ -238,6 +239,7 @@ theorem step_meets_spec (c : Codec) (limit : Nat) (sp : SpecSt) (n : Node) (t : 
   cases op with
   | relay now id sec => exact step_relay c limit sp n t now id sec (ht now rfl) hr
   | conn p => exact step_conn c limit sp n t p (by simpa [Op.peerOk] using hp) hr
+  | attach p => exact step_attach c limit sp n t p (by simpa [Op.peerOk] using hp) hr
   | disc p => exact step_disc c limit sp n t p (by simpa [Op.peerOk] using hp) hr
   | replay now p => exact step_replay c limit sp n t now p (by simpa [Op.peerOk] using hp) (ht now rfl) hr
   | rotate now => exact step_rotate c limit sp n t now (ht now rfl) hr
@@ -415,5 +417,131 @@ example : (specStep { (specInit [-1, -1, -1]) with pos := [0, 10, 0, 0, 0, 0] } 
     position passes, one from the timer beyond it is `other`. -/
 example : confirmStep { (specInit [-1, -1, -1]) with pos := [0, 10, 0, 0, 0, 0] } ⟨.timer 20 [] [[.l 10], [], []], [0, 10, 0, 0, 0, 0]⟩ = none := by decide
 example : confirmStep { (specInit [-1, -1, -1]) with pos := [0, 10, 0, 0, 0, 0] } ⟨.timer 20 [] [[.l 11], [], []], [0, 10, 0, 0, 0, 0]⟩ = some .other := by decide
+
+/-! ## "… nor of other files" -/
+
+/-
+  FULL STATEMENT (false of the unchanged code, F-C12d): whatever a damaged file decodes to (`xs`: its intact records
+  followed by whatever the garbage yields), every record of the files behind it (`ys`, intact) that the peer still
+  wants is sent.  False: a garbage record that is sent sets `peer_ts` to ITS timestamp (apilistener.cpp:1562), and
+  `timestamp <= peer_ts` (:1535) then skips intact records of every later file — `other_files_replayed_counterexample`.
+  What holds is the statement for garbage whose timestamps stay below the later records'.
+  (A second way damage reaches other files is outside the model: a record whose `timestamp` is no number makes the
+  comparison of :1535 throw outside the try block, F-C12e; the model's `dec` folds every undecodable record into `none`.)
+-/
+
+/-- **other_files_replayed_partial.**  ReplayLog reads the records `xs ++ ys` — `xs`: everything the files up to and
+    including a damaged one yield, in ANY order and with ANY content; `ys`: the intact records of the files behind it.
+    If no record of `xs` carries a timestamp above `b`, every record of `ys` newer than `b` that the peer wants (newer
+    than its position, visible to its zone) is sent. -/
+theorem other_files_replayed_partial (vis : Nat → Bool) (p lp b : Int) (xs ys : List (Int × Entry))
+    (hs : ys.Pairwise (fun a b => a.2.ts < b.2.ts)) (hb : ∀ x ∈ xs, x.2.ts ≤ b) :
+    ∀ y ∈ ys, b < y.2.ts → wanted vis p y.2 = true → y.2 ∈ msgsOf (replayEntries vis ⟨p, lp, [], 0⟩ (xs ++ ys)).out := by
+  intro y hy hby hw
+  rw [replayEntries_append, replayEntries_sorted vis ys _ hs, List.mem_append]
+  right
+  rw [List.mem_filter]
+  refine ⟨List.mem_map.mpr ⟨y, hy, rfl⟩, ?_⟩
+  have hpeer : (replayEntries vis ⟨p, lp, [], 0⟩ xs).peer ≤ max p b :=
+    replayEntries_peer_le vis (max p b) xs ⟨p, lp, [], 0⟩ (Int.le_max_left _ _) (fun x hx => Int.le_trans (hb x hx) (Int.le_max_right _ _))
+  simp only [wanted, skipEntry, Bool.not_eq_true', Bool.or_eq_false_iff, decide_eq_false_iff_not] at hw
+  simp only [skipEntry, Bool.or_eq_false_iff, decide_eq_false_iff_not, Bool.not_eq_eq_eq_not, Bool.not_true]
+  refine ⟨?_, hw.2⟩
+  have : max p b < y.2.ts := by
+    rcases Int.le_total p b with h | h
+    · rw [Int.max_eq_right h]; exact hby
+    · rw [Int.max_eq_left h]; omega
+  omega
+
+/-- The hypotheses are satisfiable and the conclusion is not empty: an intact record, a garbage record with an OLD stamp,
+    then the next file — its record is sent. -/
+example : msgsOf (replayEntries (fun _ => true) ⟨0, 0, [], 0⟩
+    ([(2, ⟨1000001, 1, none⟩), (2, ⟨7, 99, none⟩)] ++ [(3, ⟨2000002, 2, none⟩)])).out = [⟨1000001, 1, none⟩, ⟨2000002, 2, none⟩] := by decide
+
+/-- **other_files_replayed_counterexample** (F-C12d).  File 2 = an intact record and a well-framed garbage record whose
+    timestamp reads 9 000 001; file 3 = one intact record with timestamp 2 000 002, unconfirmed and visible: it is never sent. -/
+theorem other_files_replayed_counterexample :
+    ¬ (∀ (vis : Nat → Bool) (p lp : Int) (xs ys : List (Int × Entry)), ys.Pairwise (fun a b => a.2.ts < b.2.ts) →
+        ∀ y ∈ ys, wanted vis p y.2 = true → y.2 ∈ msgsOf (replayEntries vis ⟨p, lp, [], 0⟩ (xs ++ ys)).out) := by
+  intro h
+  have := h (fun _ => true) 0 0 [(2, ⟨1, 1, none⟩), (2, ⟨9000001, 1, none⟩)] [(3, ⟨2000002, 2, none⟩)] (by decide)
+    (3, ⟨2000002, 2, none⟩) (by decide) (by decide)
+  revert this
+  decide
+
+/-! ## "… before it is considered in sync" -/
+
+/-- **live_only_when_in_sync** (SyncSendMessage's gate, apilistener.cpp:1180, inside RelayMessageOne's loop).  Whatever the
+    zones, the master and the endpoints' states: an event is queued live only for endpoints that are connected and whose
+    `syncing` flag is clear. -/
+theorem live_only_when_in_sync (peers : Nat → Peer) (master : Option Nat) (zones : List (Bool × List Nat)) :
+    ∀ i ∈ (relay peers master zones).live, (peers i).connected = true ∧ (peers i).syncing = false :=
+  relay_live_in_sync peers master zones
+
+/-
+  FULL STATEMENT (false of the unchanged code, F-C12f): for EVERY operation sequence the model's sync view satisfies
+  `syncTrace`.  NewClientHandlerInternal adds the connection (Endpoint::AddClient) and only queues SyncClient, which sets
+  `syncing` later: `Op.attach`.  An event relayed in that window is sent live in front of the replay —
+  `no_live_before_sync_counterexample`.  What holds is the statement for sequences in which SyncClient is under way as
+  soon as the connection exists (`NoWindow`: every connection starts with `Op.conn`).
+-/
+
+/-- **model_no_live_before_sync_partial.**  For every payload encoding, rotation threshold, configuration and every
+    operation sequence without the connect window — no clock hypothesis, any peers, any order of events, connects,
+    disconnects, SyncClient runs, rotations, timers, acknowledgements, incoming messages, crash-restarts — nothing is
+    ever queued live for an endpoint between the moment its connection appears and the end of that connection's
+    replay, and every SyncClient run ends with the `syncing` flag clear. -/
+theorem model_no_live_before_sync_partial (c : Codec) (limit : Nat) (t0 : Int) (pf sr tr : Bool) (durs : Nat → Int)
+    (ops : List Op) (hw : NoWindow ops) :
+    syncTrace {} (runSync c limit (initNode t0 pf sr tr durs) ops) 0 = none := by
+  suffices h : ∀ (ops : List Op) (s : SyncSt) (n : Node) (i : Nat), SyncInv s n → NoWindow ops →
+      syncTrace s (runSync c limit n ops) i = none from h ops _ _ 0 (sync_init t0 pf sr tr durs) hw
+  intro ops
+  induction ops with
+  | nil => intro s n i _ _; rfl
+  | cons op rest ih =>
+    intro s n i hi hnw
+    have hop : ∀ p, op ≠ .attach p := by
+      intro p hp; subst hp; exact hnw
+    have hrest : NoWindow rest := by
+      cases op <;> first | exact hnw | exact absurd rfl (hop _)
+    obtain ⟨s', h1, h2⟩ := sync_step c limit s n op hi hop
+    simp only [runSync]
+    rw [syncTrace_append _ s s' _ i h1]
+    exact ih s' _ _ h2 hrest
+
+/-- The hypothesis is satisfiable on a history that does send live events, before and after replays. -/
+example : NoWindow [.relay 3 1 none, .conn 0, .relay 4 2 none, .replay 5 0, .relay 6 3 none, .disc 0, .conn 0, .replay 7 0,
+    .crashStart 8 false true, .conn 4, .replay 9 4, .relay 10 4 (some 0)] := by simp [NoWindow]
+
+/-- **no_live_before_sync_counterexample** (F-C12f).  Event 1 is logged for the absent peer A; A's connection is added
+    (`attach`); event 2 is relayed before SyncClient has started: it is queued live for A, in front of the replay of event 1. -/
+theorem no_live_before_sync_counterexample (c : Codec) (limit : Nat) :
+    syncTrace {} (runSync c limit (initNode 1 false false false (fun _ => -1))
+      [.relay 3 1 none, .attach 0, .relay 5 2 none, .replay 6 0]) 0 = some (2, .liveBeforeSync) := by
+  rfl
+
+/-- The clause is not vacuous: with SyncClient under way (`conn`) the same history passes; a SyncClient run that leaves
+    `syncing` set is rejected. -/
+example (c : Codec) (limit : Nat) : syncTrace {} (runSync c limit (initNode 1 false false false (fun _ => -1))
+    [.relay 3 1 none, .conn 0, .relay 5 2 none, .replay 6 0, .relay 7 3 none]) 0 = none := by rfl
+example : syncTrace {} [.attach 0, .synced 0 true] 0 = some (1, .syncStuck) := by decide
+example : syncTrace {} [.attach 0, .synced 0 false, .live [0]] 0 = none := by decide
+
+/-- Visibility is a matter of the object's TYPE and name (seeded change: a per-pass cache keyed by the name alone).  Peer B
+    (zone sat) may see Zone "agent" (object 2) but not the object of another type with the same name that lives in zone
+    master (object 7): a replay that lets the first verdict stand for both is rejected either way. -/
+example : (specTrace (specInit [-1, -1, -1, -1, -1, -1])
+    [⟨.relay 10 1 (some 7) (some 20) none, [0, 0, 0, 0, 0, 0, 0, 0, 0, 0, 0, 0]⟩,
+     ⟨.relay 11 2 (some 2) (some 20) none, [0, 0, 0, 0, 0, 0, 0, 0, 0, 0, 0, 0]⟩, ⟨.conn 1, [0, 0, 0, 0, 0, 0, 0, 0, 0, 0, 0, 0]⟩,
+     ⟨.replay 20 1 [] none, [0, 0, 0, 0, 0, 0, 0, 0, 0, 0, 0, 0]⟩] 0) = some (3, .replayComplete) := by decide
+example : (specTrace (specInit [-1, -1, -1, -1, -1, -1])
+    [⟨.relay 10 1 (some 2) (some 20) none, [0, 0, 0, 0, 0, 0, 0, 0, 0, 0, 0, 0]⟩,
+     ⟨.relay 11 2 (some 7) (some 20) none, [0, 0, 0, 0, 0, 0, 0, 0, 0, 0, 0, 0]⟩, ⟨.conn 1, [0, 0, 0, 0, 0, 0, 0, 0, 0, 0, 0, 0]⟩,
+     ⟨.replay 20 1 [.m 1 10, .m 2 11] none, [0, 0, 0, 0, 0, 0, 0, 0, 0, 0, 0, 0]⟩] 0) = some (3, .replayVisible) := by decide
+example : (specTrace (specInit [-1, -1, -1, -1, -1, -1])
+    [⟨.relay 10 1 (some 2) (some 20) none, [0, 0, 0, 0, 0, 0, 0, 0, 0, 0, 0, 0]⟩,
+     ⟨.relay 11 2 (some 7) (some 20) none, [0, 0, 0, 0, 0, 0, 0, 0, 0, 0, 0, 0]⟩, ⟨.conn 1, [0, 0, 0, 0, 0, 0, 0, 0, 0, 0, 0, 0]⟩,
+     ⟨.replay 20 1 [.m 1 10] none, [0, 0, 0, 0, 0, 0, 0, 0, 0, 0, 0, 0]⟩] 0) = none := by decide
 
 end Icinga.C12
